@@ -157,6 +157,16 @@ def check_property(pid, tier, seed):
         key = prop.nontrivial_key(line, it)
         if key is not None:
             nontrivial.add(key)
+    # derived cases (e.g. the two endpoints of a pair run, emitted by the harness as S cases): exact comparison
+    derived = 0
+    for cid, mt in model.items():
+        if cid not in case_by_id:
+            derived += 1
+            it = impl.get(cid)
+            if it is not None and it != mt and not it.startswith('bad-case'):
+                mismatches.append((cid, 'correspondence', it, mt))
+                case_by_id.setdefault(cid, mline_by_id.get(cid, ''))
+    cov['derived_endpoint_cases'] = derived
     if hasattr(prop, 'group_monitor'):
         gv = prop.group_monitor(case_by_id, impl)
         if gv:
